@@ -261,3 +261,59 @@ func RetVal(ret *ssa.Return, idx int) ssa.Value {
 	}
 	return v
 }
+
+var recoversMemo = map[*ssa.Function]bool{}
+
+// Recovers reports whether some deferred call of fn (a function literal or a named function) calls recover().
+func Recovers(fn *ssa.Function) bool {
+	if v, ok := recoversMemo[fn]; ok {
+		return v
+	}
+	res := false
+	for _, b := range fn.Blocks {
+		for _, in := range b.Instrs {
+			df, ok := in.(*ssa.Defer)
+			if !ok {
+				continue
+			}
+			var g *ssa.Function
+			switch x := df.Call.Value.(type) {
+			case *ssa.MakeClosure:
+				g, _ = x.Fn.(*ssa.Function)
+			case *ssa.Function:
+				g = x
+			}
+			if g == nil {
+				if !df.Call.IsInvoke() {
+					res = true // unknown callee: assume it may recover
+				}
+				continue
+			}
+			for _, gb := range g.Blocks {
+				for _, gin := range gb.Instrs {
+					if c, ok := gin.(ssa.CallInstruction); ok {
+						if bi, ok := c.Common().Value.(*ssa.Builtin); ok && bi.Name() == "recover" {
+							res = true
+						}
+					}
+				}
+			}
+		}
+	}
+	recoversMemo[fn] = res
+	return res
+}
+
+// AsReturn is in.(*ssa.Return), except that the return of a function's recover block counts only when the
+// function can actually recover: go/ssa gives every function with a defer statement a recover block (load the
+// result slots, return), which is dead unless a deferred call calls recover().
+func AsReturn(in ssa.Instruction) (*ssa.Return, bool) {
+	ret, ok := in.(*ssa.Return)
+	if !ok {
+		return nil, false
+	}
+	if fn := ret.Parent(); fn != nil && fn.Recover != nil && ret.Block() == fn.Recover && !Recovers(fn) {
+		return nil, false
+	}
+	return ret, true
+}
